@@ -4786,8 +4786,8 @@ class Choose(Array):
     def _take(self, index, axis):
         return Choose(_take(self.index, index, axis), _take(self.choices, index, axis))
 
-    def _takediag(self, axis, rmaxis):
-        return Choose(takediag(self.index, axis, rmaxis), takediag(self.choices, axis, rmaxis))
+    def _takediag(self, axis1, axis2):
+        return Choose(_takediag(self.index, axis1, axis2), Transpose.to_end(_takediag(self.choices, axis1, axis2), -2))
 
     def _product(self):
         unaligned, where = unalign(self.index)
